@@ -270,7 +270,10 @@ def run_history(case, schedule):
                     elif op == 'disconnect':
                         conn.disconnect()
                     elif op == 'disconnect_now':
-                        conn.disconnect(immediate=True)
+                        if ti == 0:
+                            conn.disconnect(True)       # by position
+                        else:
+                            conn.disconnect(immediate=True)
                 except InvalidState:
                     err = 'InvalidState'
                 except ConnectionRefusedError:
